@@ -174,7 +174,7 @@ def engine_sim(c, name, menu, lines="Lines4", maxlines=10, num=2000, modes=("bat
     dev = vlib.open_devs(ENGINE_DEVS)
     k = engine_consts(dev, menu, lines, maxlines, 1, joinsets, modes, "NoIntr", tdefs)
     k["Lazy"] = True
-    r = tlc("MC_Engine", cfg_text(constants=k, invariants=(list(invs) if not dev else ["TypeOK"]) + ["Emit"]), "engine-sim-" + name, workers=W, timeout=1500,
+    r = tlc("MC_Engine", cfg_text(constants=k, invariants=(list(invs) if not dev else ["TypeOK"]) + ["Emit"]), "engine-sim-" + name, workers=1, timeout=1500,
             simulate="num=%d" % num, sim_depth=4 * maxlines + 20)
     if r.violated or r.error:
         expect_holds(r, "Engine simulation " + name)
@@ -233,6 +233,7 @@ def check_C03(tier):
     c = Check("C03", tier, "model_checking")
     t = tier == "thorough"
     engine_run(c, "select", "SelectMenu", lines="Lines4", maxlines=4 if t else 3, maxfiles=2 if t else 1, modes=("batch", "incr"))
+    engine_run(c, "select-extremes", "SelectMenu", lines="LinesBig", maxlines=2 if t else 1, maxfiles=1, modes=("batch", "incr"), tdefs=("plain", "vdef"))
     engine_run(c, "functions", "FunctionMenu", lines="LinesAgg", maxlines=3 if t else 2, maxfiles=1, modes=("incr", "batch"), tdefs=("plain",))
     # impl -> spec, semantic: random typed expression trees (depth <= 4) evaluated by the real engine; TLC evaluates Expr.Eval on each
     trace_check(c, "expr", "Trace_Expr", 12000 if t else 4000, "expr", "random expression trees vs Expr.Eval", constants={"Dev": set()}, rounds=3 if t else 1, env={"TZ": "UTC"})
